@@ -358,9 +358,13 @@ func (n *Net) AddNode(idx int) (*Node, error) {
 	nd := &Node{Idx: idx, Delivered: map[int]bool{}, Fired: map[int]bool{}}
 	nd.StatusDB = n.StatusF(idx)
 	gd := *n.GenDoc
-	status, err := consensus.CreateStatusFromGenesisDoc(nd.StatusDB, &gd)
+	// like node.NewNode: a status already in the database wins (a restart), otherwise it is made from the genesis document
+	status, err := consensus.LoadStatus(nd.StatusDB)
 	if err != nil {
-		return nil, err
+		status, err = consensus.CreateStatusFromGenesisDoc(nd.StatusDB, &gd)
+		if err != nil {
+			return nil, err
+		}
 	}
 	nd.App, nd.Script = n.AppFor(idx)
 	ev := consensus.MockEvidencePool{}
@@ -644,5 +648,15 @@ func SortedKeys(m map[int]bool) []int {
 		out = append(out, k)
 	}
 	sort.Ints(out)
+	return out
+}
+
+// SortedStrings returns the keys of m in order (rapid draws must not depend on map order).
+func SortedStrings(m map[string]bool) []string {
+	out := make([]string, 0, len(m))
+	for k := range m {
+		out = append(out, k)
+	}
+	sort.Strings(out)
 	return out
 }
